@@ -671,6 +671,19 @@ func (w *world) panicValue(r *request) any {
 		// request, but the requests that follow it must be served correctly
 		simrt.Probe("abort_handler_panic")
 		return http.ErrAbortHandler
+	case 12:
+		// values of types that cannot be map keys or compared with ==
+		simrt.Probe("unhashable_panic_value")
+		return []string{"slice", r.token}
+	case 13:
+		simrt.Probe("unhashable_panic_value")
+		return map[string]int{r.token: 1}
+	case 14:
+		simrt.Probe("unhashable_panic_value")
+		return func() string { return r.token }
+	case 15:
+		simrt.Probe("unhashable_panic_value")
+		return struct{ Toks []string }{[]string{r.token}}
 	default:
 		var e *nilErr
 		return error(e) // typed nil pointer whose type implements error
@@ -781,7 +794,7 @@ func (w *world) mainC15() {
 			b.body = ch("beh.body", 2) == 1
 			b.panicAt = []int{0, 0, 1, 2, 3}[ch("beh.panic", 5)]
 			if b.panicAt != 0 {
-				b.panicVal = ch("beh.panic_value", 12)
+				b.panicVal = ch("beh.panic_value", 16)
 				b.deep = ch("beh.deep_panic", 5) == 0
 			}
 			b.failBody = ch("beh.client_gone", 6) == 0
@@ -889,7 +902,7 @@ func (w *world) mainC15() {
 		if b.panicAt != 0 {
 			if len(errs) != 1 {
 				w.violate("C15", "panic-record-count", fmt.Sprintf("request %d behaviour %+v: %d Error records with its ID", r.id, b, len(errs)))
-			} else if want := map[bool]string{true: strconv.Itoa(700000 + r.id), false: r.token}[b.panicVal == 2]; (b.panicVal <= 4 || b.panicVal == 8 || b.panicVal == 10) && !strings.Contains(errs[0].panicText, want) {
+			} else if want := map[bool]string{true: strconv.Itoa(700000 + r.id), false: r.token}[b.panicVal == 2]; (b.panicVal <= 4 || b.panicVal == 8 || b.panicVal == 10 || b.panicVal == 12 || b.panicVal == 13 || b.panicVal == 15) && !strings.Contains(errs[0].panicText, want) {
 				w.violate("C15", "panic-record-value", fmt.Sprintf("request %d behaviour %+v: Error record does not carry the panic value: %q", r.id, b, clip(errs[0].raw)))
 			}
 		} else if len(errs) != 0 {
